@@ -7,3 +7,7 @@ package fzf
 func verifPoint(name string, n int) {}
 
 func verifTrace(kind string, a int, b int, s string) {}
+
+func verifPtr(p any) string { return "" }
+
+func verifFlags(a bool, b bool) int { return 0 }
